@@ -61,6 +61,23 @@ def writeTagOf (a : Addr) (v : PyVal) (raw : Bytes) : STag :=
   | some s => { tag := a.tag, value := .none, type := a.fileType, error := some s }
   | none => { tag := a.tag, value := v, type := a.fileType, error := none }
 
+/-- `response.error` as the text a Tag carries (the exception text behind "Failed to parse reply" is not modelled) -/
+def errText : Reply.Err → Name
+  | .noResponse => nm "No response data received"
+  | .parseFailed => nm "Failed to parse reply"
+  | .text s => s
+  | .unknownError => nm "Unknown Error"
+
+/-- `if not response: return Tag(tag, None, file_type, response.error)` in `_read_tag` / `_write_tag`: the reply that
+    should carry the PCCC answer is judged first by its own status words (encapsulation status, CIP general status of the
+    Execute-PCCC reply); `none` = the response is valid; `response.error` may raise on a truncated extended status -/
+def replyRefused (raw : Bytes) : Except Exn (Option Name) :=
+  let p := Reply.parseCip (some raw) .connected
+  if Reply.validCip .connected p then .ok none
+  else (Reply.errorCip (some raw) .connected p false).map fun e => some (errText (e.getD .unknownError))
+
+def refusedTag (a : Addr) (txt : Name) : STag := { tag := a.tag, value := .none, type := a.fileType, error := some txt }
+
 /-- `SendUnitDataRequestPacket(self._sequence)`; `request.add(msg)`; `self.send(request)`: the packet draws its
     sequence count when it is constructed -/
 def sendPccc {σ} (hook : ObjHook σ) (w : Cli.World σ) (msg : Bytes) : Cli.World σ × Except Exn Bytes :=
@@ -85,7 +102,11 @@ def readTag {σ} (hook : ObjHook σ) (w : Cli.World σ) (tag : Name) : Cli.World
           let (w2, r) := sendPccc hook w1 (msgStart w1.drv ++ pccc)
           match r with
           | .error e => (w2, .error e)
-          | .ok raw => (w2, .ok (readTagOf a raw))
+          | .ok raw =>
+              match replyRefused raw with
+              | .error e => (w2, .error e)
+              | .ok (some txt) => (w2, .ok (refusedTag a txt))
+              | .ok none => (w2, .ok (readTagOf a raw))
 
 /-- `writeable_value` incl. its first line (`bytes` are passed through untouched, the announced size stays the
     element size) -/
@@ -127,7 +148,11 @@ def writeTag {σ} (hook : ObjHook σ) (w : Cli.World σ) (tag : Name) (v : PyVal
               let (w2, r) := sendPccc hook w1 (msgStart w1.drv ++ pccc)
               match r with
               | .error e => (w2, .error e)
-              | .ok raw => (w2, .ok (writeTagOf a v raw))
+              | .ok raw =>
+                  match replyRefused raw with
+                  | .error e => (w2, .error e)
+                  | .ok (some txt) => (w2, .ok (refusedTag a txt))
+                  | .ok none => (w2, .ok (writeTagOf a v raw))
 
 /-- `[self._read_tag(tag) for tag in addresses]`: in order, the first exception ends the call -/
 def readTags {σ} (hook : ObjHook σ) : Cli.World σ → List Name → Cli.World σ × Except Exn (List STag)
